@@ -14,7 +14,7 @@ TRUSTED = ["target strings (ids, base, -N, rev-N, label@rev) are resolved by the
 ASSUME = ["history loads (acyclic, references present)", "current rows are revision ids of the history"]
 RULE = ("exhaustive: every acyclic history on <=4 revisions, identity (+ sampled reversed) load order, every antichain of revisions "
         "as current rows, targets {each id, base, -1, -2, id-1}; seeded random: histories of 5-10 revisions with rows reached by "
-        "random real commands, targets incl. label@id, label@-1, partial ids. non-trivial = non-empty plan; distinct by encoded case")
+        "random real commands, targets incl. label@id, label@-1, partial ids; plus end-to-end runs (real script files, env.py, command.downgrade on SQLite; plan = order in which downgrade() ran; 40 quick / 1500 thorough). non-trivial = non-empty plan; distinct by encoded case")
 EXHAUSTIVE = {"quick": True, "thorough": True}
 CASE_TIMEOUT = 10
 DESIGN_REF = "DESIGN.md section 5 C02, Appendix A"
@@ -56,6 +56,66 @@ def generate(tier, seed):
         g = gr.rand_dag(rnd, rnd.randint(5, 10), pdep=rnd.choice([0.2, 0.4]), pmerge=rnd.choice([0.2, 0.5]),
                         plabel=rnd.choice([0, 0.15]))
         yield {"g": g, "rand_states": rnd.randint(0, 10 ** 9)}
+    for k in range(40 if tier == "quick" else 1500):
+        g = gr.rand_dag(rnd, rnd.randint(3, 8), pdep=rnd.choice([0.2, 0.4]), pmerge=rnd.choice([0.2, 0.5]), plabel=0.1)
+        yield {"g": g, "e2e": rnd.randint(0, 10 ** 9)}
+
+
+def _e2e(h):
+    """real script files, env.py, command.downgrade on SQLite; the plan is the order in which downgrade() functions ran"""
+    import shutil, tempfile
+    from alembic import command, util
+    from alembic.script import ScriptDirectory
+    g = h["g"]
+    rnd = random.Random(h["e2e"])
+    root = tempfile.mkdtemp(prefix="avc02")
+    try:
+        cfg, log, db = gr.materialize(g, root)
+        names = [r["name"] for r in g]
+        for _ in range(rnd.randint(1, 4)):
+            try:
+                kind = rnd.choice(["up", "up", "up", "down", "stamp"])
+                if kind == "up":
+                    command.upgrade(cfg, rnd.choice(names + ["heads", "heads"]))
+                elif kind == "down":
+                    command.downgrade(cfg, rnd.choice(names + ["base"]))
+                else:
+                    command.stamp(cfg, rnd.choice(names))
+            except util.CommandError:
+                pass
+        S = gr.db_rows(db)
+        sd = ScriptDirectory.from_config(cfg)
+        m = sd.revision_map
+        order = [k for k in m._revision_map if k in names]
+        g2 = sorted(g, key=lambda r: order.index(r["name"]))
+        ix = gr.index(g2)
+        ts = _targets(g2, rich=True)
+        rnd.shuffle(ts)
+        for t in ts:
+            try:
+                bl, tr = m._parse_downgrade_target(current_revisions=tuple(S), target=t, assert_relative_length=True)
+                target = None if (tr is None or tr == "base") else ix[tr.revision]
+                branch = None
+                if bl:
+                    br = m._resolve_branch(bl)
+                    if br is None:
+                        continue
+                    branch = ix[br.revision]
+            except Exception:
+                continue
+            open(log, "w").close()
+            try:
+                command.downgrade(cfg, t)
+            except util.CommandError:
+                continue
+            ran = [l.split()[1] for l in open(log).read().split("\n") if l.startswith("down ")]
+            plan = [ix[x] for x in ran]
+            cin = "(%s, %s, %s, %s)" % (gr.coq_graph(g2, m), cf.opt(target), cf.opt(branch), cf.nlist(ix[s] for s in S))
+            return dict(cin=cin, cout="POk %s" % cf.nlist(plan), out={"plan": plan, "target": target, "branch": branch, "S": S, "t": t, "e2e": True},
+                        nontrivial=bool(plan), shape="e2e-n%d" % len(g))
+        return None
+    finally:
+        shutil.rmtree(root, ignore_errors=True)
 
 
 def search(tier, seed):
@@ -106,6 +166,8 @@ def _one(g, m, sd, S, t):
 
 
 def run_case(h):
+    if "e2e" in h:
+        return _e2e(h)
     g = h["g"]
     m, sd = gr.build(g)
     if "rand_states" in h:
